@@ -192,3 +192,105 @@ pub fn state_metadata(_cex: &Value) -> Result<String, String> {
     Ok(_) => Err("state metadata battery: all expectations met".to_owned()),
   }
 }
+
+/// C17 battery
+pub fn iota_did(cex: &Value) -> Result<String, String> {
+  use identity_iota_core::NetworkName;
+  let only: Option<String> = cex.get("only").and_then(Value::as_str).map(str::to_owned);
+  let r = no_panic(|| -> Vec<String> {
+    let mut log = Vec::new();
+    let tag_l = "0xabcdef0123456789abcdef0123456789abcdef0123456789abcdef0123456789";
+    let tag_u = "0xABCDEF0123456789ABCDEF0123456789ABCDEF0123456789ABCDEF0123456789";
+    let ok_inputs = [format!("did:iota:{tag_l}"), format!("did:iota:rms:{tag_l}"), format!("did:iota:iota:{tag_l}"), format!("DID:IOTA:{tag_u}"), format!("did:iota:a1b2c3:{tag_l}")];
+    for s in &ok_inputs {
+      match IotaDID::parse(s) {
+        Err(e) => log.push(format!("[valid] {s:?} rejected: {e}")),
+        Ok(d) => {
+          let text = d.to_string();
+          if text != text.to_lowercase() {
+            log.push(format!("[case] {s:?} held as {text:?}: not lower-case"));
+          }
+          if text.starts_with("did:iota:iota:") {
+            log.push(format!("[normal] default network not omitted in {text:?}"));
+          }
+          if text.contains(['/', '?', '#']) {
+            log.push(format!("[normal] {text:?} carries URL parts"));
+          }
+          if IotaDID::parse(&text).ok().as_ref() != Some(&d) {
+            log.push(format!("[normal] {text:?} does not re-parse to an equal value"));
+          }
+          let re = if d.network_str() == "iota" { format!("did:iota:{}", d.tag_str()) } else { format!("did:iota:{}:{}", d.network_str(), d.tag_str()) };
+          if re != text {
+            log.push(format!("[normal] accessors recompose {re:?}, value is {text:?}"));
+          }
+        }
+      }
+    }
+    // equality <=> network and tag bytes
+    let a = IotaDID::parse(format!("did:iota:{tag_l}")).unwrap();
+    for (s, same) in [(format!("did:iota:iota:{tag_l}"), true), (format!("did:iota:{tag_u}"), true), (format!("did:iota:rms:{tag_l}"), false)] {
+      if let Ok(b) = IotaDID::parse(&s) {
+        if (a == b) != same {
+          log.push(format!("[case] parse({s:?}) == canonical is {}", a == b));
+        }
+      }
+      // the same strings through the CoreDID route
+      if let Ok(core) = CoreDID::parse(&s) {
+        if let Ok(b) = IotaDID::try_from(core) {
+          if (a == b) != same {
+            log.push(format!("[case] TryFrom<CoreDID>({s:?}) == canonical is {} (held as {})", a == b, b));
+          }
+          if b.to_string() != b.to_string().to_lowercase() {
+            log.push(format!("[case] TryFrom<CoreDID>({s:?}) held as {b}: not lower-case"));
+          }
+        }
+      }
+    }
+    let bad = [
+      format!("did:iotb:{tag_l}"),
+      format!("did:iota:{}", &tag_l[..tag_l.len() - 2]),
+      format!("did:iota:{tag_l}00"),
+      format!("did:iota:toolong7:{tag_l}"),
+      format!("did:iota::{tag_l}"),
+      format!("did:iota:a_b:{tag_l}"),
+      format!("did:iota:a:b:{tag_l}"),
+      format!("did:iota:{}", tag_l.replace("0x", "")),
+      format!("did:iota:{tag_l}/path"),
+      format!("did:iota:{tag_l}?q"),
+      format!("did:iota:{tag_l}#f"),
+    ];
+    for s in &bad {
+      if IotaDID::parse(s).is_ok() {
+        log.push(format!("[valid] {s:?} accepted"));
+      }
+      if let Ok(core) = CoreDID::parse(s) {
+        if IotaDID::try_from(core).is_ok() {
+          log.push(format!("[valid] TryFrom<CoreDID>({s:?}) accepted"));
+        }
+      }
+    }
+    for (n, ok) in [("", false), ("a", true), ("abc123", true), ("abcdefg", false), ("Abc", false), ("a-b", false), ("é", false)] {
+      if NetworkName::try_from(n.to_owned()).is_ok() != ok {
+        log.push(format!("[network] network name {n:?}: {}", if ok { "rejected" } else { "accepted" }));
+      }
+    }
+    let bytes = [0xabu8; 32];
+    let net = NetworkName::try_from("rms").unwrap();
+    let d = IotaDID::new(&bytes, &net);
+    if d.network_str() != "rms" || d.tag_str() != format!("0x{}", "ab".repeat(32)) {
+      log.push(format!("[normal] IotaDID::new exposes ({}, {})", d.network_str(), d.tag_str()));
+    }
+    log
+  });
+  match r {
+    Err(msg) => Ok(format!("IOTA DID handling panicked: {msg}")),
+    Ok(log) => {
+      let log: Vec<String> = log.into_iter().filter(|l| only.as_ref().map(|o| l.contains(o.as_str())).unwrap_or(true)).collect();
+      if log.is_empty() {
+        Err("IOTA DID battery: all expectations met".to_owned())
+      } else {
+        Ok(format!("{} deviations, e.g. {}", log.len(), log[..log.len().min(4)].join("; ")))
+      }
+    }
+  }
+}
